@@ -58,8 +58,60 @@ func OpTerm(name string, a []*T) (val, err *T) {
 	return f(name, a)
 }
 
-func berr(family string, a []*T) *T {
-	return EErr(App(fmt.Sprintf("berr_%s_%d", family, len(a)), SInt, a...))
+// Families of built-in failures. The error a built-in operator returns is
+// modelled by WHICH operator failed -- (EBuiltin <family code>) -- not by its
+// message or its arguments: that is exactly what a replay can observe of a
+// real error value (the message names the operator), so that the SMT relation
+// is never finer than the replay oracle.
+var BuiltinFamilies = []string{"add", "sub", "mul", "div", "mod", "and", "or", "xor", "not", "eq", "ne", "gt", "lt", "ge", "le", "between", "in", "if", "g", "ext"}
+
+// FamilyOf maps an operator name (any alias) to its failure family (the mode
+// name the real error messages carry).
+func FamilyOf(name string) string {
+	switch name {
+	case "+", "add":
+		return "add"
+	case "-", "sub":
+		return "sub"
+	case "*", "mul":
+		return "mul"
+	case "/", "div":
+		return "div"
+	case "%", "mod":
+		return "mod"
+	case "and", "&", "&&":
+		return "and"
+	case "or", "|", "||":
+		return "or"
+	case "not", "!":
+		return "not"
+	case "eq", "=", "==":
+		return "eq"
+	case "ne", "!=":
+		return "ne"
+	case ">", "gt":
+		return "gt"
+	case "<", "lt":
+		return "lt"
+	case ">=", "ge":
+		return "ge"
+	case "<=", "le":
+		return "le"
+	}
+	return name
+}
+
+func FamilyCode(fam string) int64 {
+	for i, f := range BuiltinFamilies {
+		if f == fam {
+			return int64(i + 1)
+		}
+	}
+	return int64(len(BuiltinFamilies))
+}
+
+func berr(name string, a []*T) *T {
+	return EBuiltin(Int(FamilyCode(FamilyOf(name))))
 }
 
 func allAre(ctor string, a []*T) *T {
@@ -91,7 +143,7 @@ func canonArith(name string) string {
 func opArith(name string, a []*T) (*T, *T) {
 	op := canonArith(name)
 	if len(a) < 2 {
-		return VNil, berr("arith", a)
+		return VNil, berr(name, a)
 	}
 	ok := []*T{allAre("VInt", a)}
 	acc := IVal(a[0])
@@ -101,14 +153,14 @@ func opArith(name string, a []*T) (*T, *T) {
 			ok = append(ok, Not(Eq(IVal(x), Int(0))))
 		}
 	}
-	return VInt(acc), Ite(And(ok...), ENil, berr("arith", a))
+	return VInt(acc), Ite(And(ok...), ENil, berr(name, a))
 }
 
 // logic.execute: fold of and / or / xor over booleans; fails when fewer than two
 // operands or a non-bool operand.
 func opLogic(name string, a []*T) (*T, *T) {
 	if len(a) < 2 {
-		return VNil, berr("logic", a)
+		return VNil, berr(name, a)
 	}
 	acc := BVal(a[0])
 	for _, x := range a[1:] {
@@ -121,15 +173,15 @@ func opLogic(name string, a []*T) (*T, *T) {
 			acc = Xor(acc, BVal(x))
 		}
 	}
-	return VBool(acc), Ite(allAre("VBool", a), ENil, berr("logic", a))
+	return VBool(acc), Ite(allAre("VBool", a), ENil, berr(name, a))
 }
 
 // logicNot: exactly one boolean operand.
 func opNot(name string, a []*T) (*T, *T) {
 	if len(a) != 1 {
-		return VNil, berr("not", a)
+		return VNil, berr(name, a)
 	}
-	return VBool(Not(BVal(a[0]))), Ite(Is("VBool", a[0]), ENil, berr("not", a))
+	return VBool(Not(BVal(a[0]))), Ite(Is("VBool", a[0]), ENil, berr(name, a))
 }
 
 // comparisonEquals: interface equality of all operands with the first; fails
@@ -137,7 +189,7 @@ func opNot(name string, a []*T) (*T, *T) {
 // -- lists -- make the Go function panic: outside the domain, finding F4.)
 func opEquals(name string, a []*T) (*T, *T) {
 	if len(a) < 2 {
-		return VNil, berr("eq", a)
+		return VNil, berr(name, a)
 	}
 	var cs []*T
 	for _, x := range a[1:] {
@@ -149,7 +201,7 @@ func opEquals(name string, a []*T) (*T, *T) {
 // comparisonNotEquals: exactly two operands.
 func opNotEquals(name string, a []*T) (*T, *T) {
 	if len(a) != 2 {
-		return VNil, berr("ne", a)
+		return VNil, berr(name, a)
 	}
 	return VBool(Not(Eq(a[0], a[1]))), ENil
 }
@@ -157,7 +209,7 @@ func opNotEquals(name string, a []*T) (*T, *T) {
 // comparison.execute: exactly two int64 operands.
 func opCompare(name string, a []*T) (*T, *T) {
 	if len(a) != 2 {
-		return VNil, berr("cmp", a)
+		return VNil, berr(name, a)
 	}
 	op := name
 	switch name {
@@ -170,23 +222,23 @@ func opCompare(name string, a []*T) (*T, *T) {
 	case "le":
 		op = "<="
 	}
-	return VBool(Cmp(op, IVal(a[0]), IVal(a[1]))), Ite(allAre("VInt", a), ENil, berr("cmp", a))
+	return VBool(Cmp(op, IVal(a[0]), IVal(a[1]))), Ite(allAre("VInt", a), ENil, berr(name, a))
 }
 
 // comparisonBetween: (between v a b) = a <= v && v <= b over three int64.
 func opBetween(name string, a []*T) (*T, *T) {
 	if len(a) != 3 {
-		return VNil, berr("between", a)
+		return VNil, berr(name, a)
 	}
 	v, lo, hi := IVal(a[0]), IVal(a[1]), IVal(a[2])
-	return VBool(And(Cmp("<=", lo, v), Cmp("<=", v, hi))), Ite(allAre("VInt", a), ENil, berr("between", a))
+	return VBool(And(Cmp("<=", lo, v), Cmp("<=", v, hi))), Ite(allAre("VInt", a), ENil, berr(name, a))
 }
 
 // listIn: (in x list): string in []string, int64 in []int64, int64 in the empty
 // (string) list literal is false; everything else is an error.
 func opIn(name string, a []*T) (*T, *T) {
 	if len(a) != 2 {
-		return VNil, berr("in", a)
+		return VNil, berr(name, a)
 	}
 	x, l := a[0], a[1]
 	memS := memTerm("memS", Sel("sval", x), Sel("slid", l))
@@ -195,7 +247,7 @@ func opIn(name string, a []*T) (*T, *T) {
 	val := VBool(Ite(Is("VStr", x), memS, Ite(Is("VIntList", l), memI, False)))
 	ok := Or(And(Is("VStr", x), Is("VStrList", l)),
 		And(Is("VInt", x), Or(Is("VIntList", l), And(Is("VStrList", l), emp))))
-	return val, Ite(ok, ENil, berr("in", a))
+	return val, Ite(ok, ENil, berr(name, a))
 }
 
 // memTerm builds memI / memS / emptyL, evaluated when the list (and element) are literals.
